@@ -124,6 +124,8 @@ func init() {
 		Technique: "frame and purity obligations over go/ssa (contract-style sufficient conditions): no package-level or keeper-field state, no nondeterministic source (wall clock only into telemetry), every map range in an order-independent form"})
 	register(&PropSpec{ID: "C16", Level: "proof", Contracts: true, Extra: c16Extra,
 		Technique: "contract-based deductive verification: byte-level key lemmas over spec functions extracted mechanically from the real key builders (SMT strings), lookup/feed/expiry contracts over the ghost price table; VCs from go/ssa discharged by z3/cvc5"})
+	register(&PropSpec{ID: "C08", Level: "proof", Contracts: true, Extra: func(e *Engine, pc *PropertyCheck) { e.writerClosure(pc, "C08", "leveragelp") },
+		Technique: "contract-based deductive verification: ghost aggregates (per-pool sum of position shares, number of stored positions) with gap-preservation contracts on every function that writes the leveragelp store and on all their callers up to the entry points (closure checked on the SSA call graph); VCs from go/ssa discharged by z3/cvc5"})
 	register(&PropSpec{ID: "C14", Level: "proof", Contracts: true,
 		Technique: "contract-based deductive verification: strongest postcondition of VestedSoFar against the linear spec function, claim/cancel delta contracts, VCs from go/ssa discharged by z3/cvc5"})
 }
